@@ -1404,6 +1404,9 @@ func TestZZVerifC13(t *testing.T) {
 			"written in ALL permutations into fresh stores (quick: seed-selected subset of the config-entry sets, thorough: exhaustive); per store 169 answers (list, match by source/destination for 4 names via IntentionMatch and IntentionMatchOne, "+
 			"Check-style and destination-side decisions for 3x3 names x 3 peers x both defaults x both AllowPermissions, up/downstream topology for 4 targets x both defaults) are compared with a reference precedence evaluator and with the first order's answers. "+
 			"Part B: PRNG histories of 6-12 puts/updates/deletes/re-creations over a pool of <=5 intentions incl. L7 permissions, reference comparison after every step, final set re-written in all (<=4) or 6 orders. "+
+			"Part C: all valid histories of 2-4 writes over a local/peer pair of same-named sources. "+
+			"Case variants (names are compared exactly): Part A repeated over sources {web,Web,db,*} x destinations {db,Db,*} with queries for web/Web/db/Db (quick: seed-selected subset), a third of the Part B histories over that universe, "+
+			"Part E: all valid histories of 2-4 writes (quick: a quarter of those of 4) putting/deleting sources web and Web of one destination by name (IntentionMutation) and through the whole entry. "+
 			"non-trivial = case in which for at least one queried pair >=2 intentions with different verdicts match, so precedence decides (Part B: and at least one delete); distinct by (representation, set | history)")
 	run.Assume("CE build: namespace and partition are always default, so specificity varies in the name only",
 		"a match by source is a query about a local source (the endpoints cannot name a peer), so peer sources appear only in destination matches",
